@@ -1,1 +1,53 @@
-//! Hooks for property C32.
+//! Hooks for property C32: the private builder-fee helpers of `ops/order.rs` and
+//! `Order::record_builder_fee`.
+use anchor_lang::prelude::*;
+
+pub use gmsol_model::{action::decrease_position::DecreasePositionSwapType, price::Price};
+
+use crate::{ops::order::verif_hooks_c32 as h, states::Order};
+
+pub fn compute_builder_fee_amount(
+    size_delta_usd: u128,
+    factor: u128,
+    price: &Price<u128>,
+) -> Result<u128> {
+    h::compute_builder_fee_amount(size_delta_usd, factor, price)
+}
+
+pub fn clamp_builder_fee_amount(fee_amount: u128, available: u128) -> u128 {
+    h::clamp_builder_fee_amount(fee_amount, available)
+}
+
+pub fn charge_builder_fee_on_collateral_increment(
+    collateral_increment_amount: u64,
+    size_delta_usd: u128,
+    builder_fee_factor: u128,
+    collateral_price: &Price<u128>,
+) -> Result<(u64, u64)> {
+    h::charge_builder_fee_on_collateral_increment(
+        collateral_increment_amount,
+        size_delta_usd,
+        builder_fee_factor,
+        collateral_price,
+    )
+}
+
+pub fn estimate_builder_fee_for_collateral_withdrawal(
+    collateral_withdrawal_amount: u128,
+    size_delta_usd: u128,
+    builder_fee_factor: u128,
+    collateral_price: &Price<u128>,
+    decrease_position_swap_type: DecreasePositionSwapType,
+) -> Result<u128> {
+    h::estimate_builder_fee_for_collateral_withdrawal(
+        collateral_withdrawal_amount,
+        size_delta_usd,
+        builder_fee_factor,
+        collateral_price,
+        decrease_position_swap_type,
+    )
+}
+
+pub fn record_builder_fee(order: &mut Order, amount: u64) -> Result<()> {
+    order.record_builder_fee(amount)
+}
